@@ -25,6 +25,7 @@ Str(s) == [t |-> "str", s |-> s]
 Bool(b) == [t |-> "bool", b |-> b]
 Null == [t |-> "null"]
 Obj(f) == [t |-> "obj", f |-> f]
+Arr(e) == [t |-> "arr", e |-> e]
 M(k, v) == [k |-> k, v |-> v]
 Term(n) == Obj(<<M("terminal", Num(n))>>)
 
@@ -46,9 +47,19 @@ OutcomeMap(shape, probfault) ==
                             ELSE IF probfault = "twice" /\ j = 1 THEN <<M("prob", Num(1)), M("state", Child(shape[j][2], j)), M("prob", Num(2))>>
                             ELSE IF probfault = "extra" /\ j = 1 THEN <<M("state", Child(shape[j][2], j)), M("note", Null), M("prob", Num(j))>>
                             ELSE <<M("prob", Num(j)), M("state", Child(shape[j][2], j))>>))])
+\* the first outcome in serde's positional form: [prob, state], one element short, one too many, or in the other order
+PosOutcomeMap(shape, probfault) ==
+  Obj([j \in 1..Len(shape) |->
+         M(shape[j][1], IF j # 1 THEN Obj(<<M("prob", Num(j)), M("state", Child(shape[j][2], j))>>)
+                        ELSE IF probfault = "positional" THEN Arr(<<Num(j), Child(shape[j][2], j)>>)
+                        ELSE IF probfault = "positional-short" THEN Arr(<<Num(j)>>)
+                        ELSE IF probfault = "positional-long" THEN Arr(<<Num(j), Child(shape[j][2], j), Null>>)
+                        ELSE Arr(<<Child(shape[j][2], j), Num(j)>>))])
+PosFaults == {"positional", "positional-short", "positional-long", "positional-swapped"}
 
 \* struct-level variations of the inner object
 StructFaults == {"none", "missing-map", "missing-infoset", "infoset-null", "infoset-number", "twice", "extra", "map-is-array", "flag-number"}
+                  \cup PosFaults
 
 PlayerMembers(shape, sf) ==
   LET flag == M("player_one", IF sf = "flag-number" THEN Num(1) ELSE Bool(1))
@@ -69,37 +80,64 @@ ChanceMembers(shape, sf, pf) ==
        [] sf = "flag-number" -> <<inf, map>>
        [] OTHER -> <<inf, map>>
 
+ChanceMembersWith(sf0, outs) ==
+  LET inf == M("infoset", IF sf0 = "infoset-null" THEN Null ELSE IF sf0 = "infoset-number" THEN Num(3) ELSE Str("c"))
+      map == M("outcomes", IF sf0 = "map-is-array" THEN Arr(<<>>) ELSE outs)
+  IN CASE sf0 = "missing-map" -> <<inf>>
+       [] sf0 = "missing-infoset" -> <<map>>
+       [] sf0 = "twice" -> <<inf, map, M("outcomes", outs)>>
+       [] sf0 = "extra" -> <<M("comment", Str("c")), inf, map>>
+       [] OTHER -> <<inf, map>>
+
 Reverse(s) == [j \in 1..Len(s) |-> s[Len(s) + 1 - j]]
 RECURSIVE Rev(_)
-Rev(v) == IF v.t = "obj" THEN Obj(Reverse([j \in 1..Len(v.f) |-> M(v.f[j].k, Rev(v.f[j].v))])) ELSE v
+Rev(v) == IF v.t = "obj" THEN Obj(Reverse([j \in 1..Len(v.f) |-> M(v.f[j].k, Rev(v.f[j].v))]))
+          ELSE IF v.t = "arr" THEN Arr([j \in 1..Len(v.e) |-> Rev(v.e[j])])   \* positions mean something: kept
+          ELSE v
 
 VARIABLES kind, shape, sf, pf, rev
 vars == <<kind, shape, sf, pf, rev>>
 Init == /\ kind \in {"player", "chance"}
         /\ shape \in MapShapes
         /\ sf \in StructFaults
-        /\ pf \in {"none", "missing", "string", "twice", "extra"}
+        /\ pf \in {"none", "missing", "string", "twice", "extra"} \cup PosFaults
         /\ (kind = "player" => pf = "none")
         /\ rev \in BOOLEAN
 Next == UNCHANGED vars
 Spec == Init /\ [][Next]_vars
 
-Doc0 == IF kind = "player" THEN Obj(<<M("player", Obj(PlayerMembers(shape, sf)))>>)
-        ELSE Obj(<<M("chance", Obj(ChanceMembers(shape, sf, pf)))>>)
+TheOutcomes == IF pf \in PosFaults THEN PosOutcomeMap(shape, pf) ELSE OutcomeMap(shape, pf)
+PlayerInner ==
+  CASE sf = "positional" -> Arr(<<Bool(1), Str("x"), ActionMap(shape)>>)
+    [] sf = "positional-short" -> Arr(<<Bool(1), ActionMap(shape)>>)
+    [] sf = "positional-long" -> Arr(<<Bool(1), Str("x"), ActionMap(shape), Null>>)
+    [] sf = "positional-swapped" -> Arr(<<Str("x"), Bool(1), ActionMap(shape)>>)
+    [] OTHER -> Obj(PlayerMembers(shape, sf))
+ChanceInner ==
+  CASE sf = "positional" -> Arr(<<IF Len(shape) = 1 THEN Null ELSE Str("c"), TheOutcomes>>)
+    [] sf = "positional-short" -> Arr(<<TheOutcomes>>)
+    [] sf = "positional-long" -> Arr(<<Str("c"), TheOutcomes, Null>>)
+    [] sf = "positional-swapped" -> Arr(<<TheOutcomes, Str("c")>>)
+    [] OTHER -> Obj(IF pf \in PosFaults THEN ChanceMembersWith(sf, TheOutcomes) ELSE ChanceMembers(shape, sf, pf))
+Doc0 == IF kind = "player" THEN Obj(<<M("player", PlayerInner)>>)
+        ELSE Obj(<<M("chance", ChanceInner)>>)
 Doc == IF rev THEN Rev(Doc0) ELSE Doc0
 Res == JState(Doc, 1, 1)
 
 EntriesBad == \E j \in 1..Len(shape) : shape[j][2] # "good"
 NamesRepeat == \E i, j \in 1..Len(shape) : i # j /\ shape[i][1] = shape[j][1]
+\* the outcome map is part of the document
+OutcomesSeen == TRUE
 \* the faults the header of JsonDsl lists (missing / wrong type / listed member twice / malformed node below)
-Faulty == \/ sf \in {"missing-map", "infoset-number", "twice", "map-is-array"}
+Faulty == \/ sf \in {"missing-map", "infoset-number", "twice", "map-is-array", "positional-short", "positional-long", "positional-swapped"}
           \/ (kind = "player" /\ sf \in {"missing-infoset", "flag-number", "infoset-null"})
           \/ EntriesBad
-          \/ (kind = "chance" /\ Len(shape) >= 1 /\ pf \in {"missing", "string", "twice"})
+          \/ (kind = "chance" /\ OutcomesSeen /\ Len(shape) >= 1 /\ pf \in {"missing", "string", "twice", "positional-short", "positional-long", "positional-swapped"})
 \* what the documentation leaves open
 Open == \/ sf = "extra" \/ NamesRepeat
         \/ (kind = "chance" /\ sf = "infoset-null")
-        \/ (kind = "chance" /\ Len(shape) >= 1 /\ pf = "extra")
+        \/ (kind = "chance" /\ Len(shape) >= 1 /\ pf \in {"extra", "positional"})
+        \/ sf = "positional"
 
 GrammarHasMeaning == StrictHasMeaning(Doc)
 FaultsRejected == Res.ok <=> ~Faulty
